@@ -272,12 +272,14 @@ def replay(ctx, obj):
 META = dict(
     category='model_checking',
     text='TLC enumerates the number grammar exhaustively up to the length bound (generator automaton NumGen, design '
-         'invariants of the value relation checked in every state) and evaluates the TLA+ relation NumberOK/DecimalOK '
-         '(exact rational equality via digit-sequence arithmetic; half-ulp bound for precision>0; grammar; length; '
-         'guard bytes) on the recorded result of every real call. Exhaustive within the bound, random walks and the '
-         'repository corpus beyond it.',
-    design_ref='DESIGN.md section 4, C08',
+         'invariants of the value relation checked in every state), model-checks implementation-shaped transcriptions of '
+         'minify.Decimal and minify.Number against the relation (D => A, with a wrong-design vacuity guard) and replays every '
+         'finished behaviour of those models on the real functions (0 drift expected), and evaluates the TLA+ relation '
+         'NumberOK/DecimalOK (exact rational equality via digit-sequence arithmetic; half-ulp bound for precision>0; grammar; '
+         'length; guard bytes) on the recorded result of every real call. Exhaustive within the bound; random walks, '
+         'edge exponents at the machine-integer limits and the repository corpus beyond it.',
+    design_ref='DESIGN.md sections 4 (C08) and 10.8',
     note='Trusted: TLC, spec/NumVal.tla + BigNat.tla as the meaning of a number lexeme; harness guard-buffer probe for '
-         'out-of-slice writes. Beyond the exhaustive bound coverage is sampled (TLC -simulate).',
-    technique='TLA+ generator automaton + TLC trace validation of the value relation',
+         'out-of-slice writes. Beyond the exhaustive bound coverage is sampled (TLC -simulate, edge-exponent family).',
+    technique='TLA+ generator automaton + design models (Decimal/Number transcriptions) + TLC trace validation of the value relation',
 )
